@@ -74,14 +74,18 @@ impl Property for C08 {
         } else {
             None
         };
+        // explicitly built buffers are also aligned more strictly than the message needs (x1, x2, x4)
+        let align_shift = capacity.map_or(0, |c| ((c / model::align(ty)) % 3) as u32);
         struct CapGuard;
         impl Drop for CapGuard {
             fn drop(&mut self) {
                 crate::io_glue::IO_CAPACITY.with(|c| c.set(None));
+        crate::io_glue::IO_ALIGN_SHIFT.with(|c| c.set(0));
             }
         }
         let _cap_guard = CapGuard;
         crate::io_glue::IO_CAPACITY.with(|c| c.set(capacity));
+        crate::io_glue::IO_ALIGN_SHIFT.with(|c| c.set(align_shift));
         let total = msgs.total();
         let cuts = msgs.interesting_cuts(ty);
         let wchunks = gen_chunks(total, &cuts, &mut t);
